@@ -114,6 +114,7 @@ type Entry struct {
 	Spelling string
 	Wd       int
 	Ino      uint64
+	Since    int64 // stream position when the Add that attached this watch to this descriptor returned
 }
 
 type retiredWd struct {
@@ -223,14 +224,14 @@ func (m *Ideal) Add(p string, got error, calls []vsys.Call, pos int64) {
 			delete(m.bySpelling, cp) // that file is already listed under its first spelling
 			return
 		}
-		e.Wd, e.Ino = wd, ino
+		e.Wd, e.Ino, e.Since = wd, ino, pos
 		m.byWd[wd] = e
 		return
 	}
 	if m.byWd[wd] != nil {
 		return // another name of a file that is already listed: first spelling wins
 	}
-	e := &Entry{Spelling: cp, Wd: wd, Ino: ino}
+	e := &Entry{Spelling: cp, Wd: wd, Ino: ino, Since: pos}
 	m.byWd[wd] = e
 	m.bySpelling[cp] = e
 }
@@ -321,6 +322,11 @@ func (m *Ideal) Record(r RawRec) Expect {
 			x.Kind = "none"
 		}
 		return x
+	}
+	if r.Pos < e.Since && r.Mask&(inIGNORED|inUNMOUNT) == 0 {
+		// queued before this watch existed: a kernel watch that outlived its listing (its descriptor number came
+		// back from the re-Add) reported a change made while nothing was listed - not this path's business
+		return Expect{Kind: "mustnot", Rec: r}
 	}
 	name := e.Spelling
 	if r.Name != "" {
